@@ -62,7 +62,11 @@ func (e *c15PErr) Error() string { return "c15PErr" }
 
 type c15MyInt int
 
-var c15ElemNames = []string{"int", "string", "any", "error", "ptr", "bytes"}
+// c15Bytes is a named slice type: []byte values are assignable to it and its values are assignable to []byte
+// (identical underlying types, one side not a named type) although the types are not identical
+type c15Bytes []byte
+
+var c15ElemNames = []string{"int", "string", "any", "error", "ptr", "bytes", "nbytes"}
 
 var c15ElemTypes = map[string]reflect.Type{
 	"int":    reflect.TypeOf(0),
@@ -71,6 +75,7 @@ var c15ElemTypes = map[string]reflect.Type{
 	"error":  reflect.TypeOf((*error)(nil)).Elem(),
 	"ptr":    reflect.TypeOf((*c15T)(nil)),
 	"bytes":  reflect.TypeOf([]byte(nil)),
+	"nbytes": reflect.TypeOf(c15Bytes(nil)),
 }
 
 // c15Accepts is the assignability table of the value kinds to the element types (Go spec, not reflect).
@@ -89,10 +94,10 @@ func c15Accepts(vk, elem string) bool {
 		return elem == "error"
 	case "ptr", "nilptr":
 		return elem == "ptr"
-	case "bytes", "nilbytes":
-		return elem == "bytes"
+	case "bytes", "nilbytes", "nbytes":
+		return elem == "bytes" || elem == "nbytes"
 	case "nil": // untyped nil: nilable element types only
-		return elem == "error" || elem == "ptr" || elem == "bytes"
+		return elem == "error" || elem == "ptr" || elem == "bytes" || elem == "nbytes"
 	}
 	panic("harness: unknown value kind " + vk)
 }
@@ -123,6 +128,8 @@ func c15MakeValue(vk string, id int) any {
 		return []byte{byte(id), byte(id >> 8), 7}
 	case "nilbytes":
 		return []byte(nil)
+	case "nbytes":
+		return c15Bytes{byte(id), 9}
 	case "nil":
 		return nil
 	}
@@ -133,6 +140,10 @@ func c15MakeValue(vk string, id int) any {
 func c15Expect(vk string, val any, elem string) any {
 	if vk == "nil" {
 		return reflect.Zero(c15ElemTypes[elem]).Interface()
+	}
+	if et := c15ElemTypes[elem]; et.Kind() != reflect.Interface && reflect.TypeOf(val) != et {
+		// assignable without being identical (named vs unnamed slice type): the channel holds the element type
+		return reflect.ValueOf(val).Convert(et).Interface()
 	}
 	return val
 }
@@ -777,7 +788,7 @@ func (m *c15Machine) drawPubSpec(t *rapid.T, allowDead bool) c15PubSpec {
 		var vks []string
 		switch s.ch.elem {
 		case "any":
-			vks = []string{"int", "int", "int", "int", "nil", "nil", "myint", "ptr", "nilptr", "string", "err"}
+			vks = []string{"int", "int", "int", "int", "nil", "nil", "myint", "ptr", "nilptr", "string", "err", "nbytes"}
 		case "int":
 			vks = []string{"int"}
 		case "string":
@@ -786,8 +797,8 @@ func (m *c15Machine) drawPubSpec(t *rapid.T, allowDead bool) c15PubSpec {
 			vks = []string{"err", "perr", "nilperr", "nil", "nil"}
 		case "ptr":
 			vks = []string{"ptr", "ptr", "nilptr", "nil", "nil"}
-		case "bytes":
-			vks = []string{"bytes", "nilbytes", "nil", "nil"}
+		case "bytes", "nbytes":
+			vks = []string{"bytes", "nilbytes", "nbytes", "nbytes", "nil", "nil"}
 		}
 		sp.vk = rapid.SampledFrom(vks).Draw(t, "valueKind")
 	} else {
@@ -796,7 +807,7 @@ func (m *c15Machine) drawPubSpec(t *rapid.T, allowDead bool) c15PubSpec {
 		if sp.key >= len(m.keys) {
 			sp.key = 0
 		}
-		vks := []string{"int", "int", "int", "int", "nil", "nil", "nil", "string", "err", "perr", "ptr", "nilptr", "bytes", "nilbytes", "nilperr", "myint"}
+		vks := []string{"int", "int", "int", "int", "nil", "nil", "nil", "string", "err", "perr", "ptr", "nilptr", "bytes", "nilbytes", "nbytes", "nilperr", "myint"}
 		sp.vk = rapid.SampledFrom(vks).Draw(t, "valueKind")
 	}
 	kinds := []string{"nil", "nil", "nil", "live", "live", "dead"}
